@@ -528,7 +528,7 @@ func propC06(c *Check) {
 				if k == q.deq || strings.Contains(k, "/types.") {
 					continue
 				}
-				v := p.R(fs.Fn).E(fs.Store.Val)
+				v := concatAsAppend(p.R(fs.Fn).E(fs.Store.Val))
 				if addr := p.R(fs.Fn).E(fs.Store.Addr); v == addr || regexp.MustCompile(`^mix\{[^}]*\}$`).MatchString(v) && strings.Contains(v, addr) && !strings.Contains(v, "[") {
 					c.Held("R5", "tail-append "+f+" @ "+k, p.InstrPos(fs.Store), "the list is stored back unchanged (capacity adjustment)")
 				} else if regexp.MustCompile(`^append\((mix\{[^}]*\}|[^,]*\.` + f + `), `).MatchString(v) {
